@@ -363,6 +363,58 @@ mut("C09", "decimal-value-as-float-string", ("internal/json/json_marshal.go", ''
 	}
 	val := valueJSON{v: types.String(str)}'''))
 
+# ---- C11
+mut("C11", "contains-no-probe", ("types/set.go", '''		} else if v.Equal(existing) {
+			return true
+		}
+		hash++
+	}
+}''', '''		} else if v.Equal(existing) {
+			return true
+		}
+		return false
+	}
+}'''))
+mut("C11", "equal-trusts-hash", ("types/set.go", '''	for _, v := range s.s {
+		if !bs.Contains(v) {
+			return false
+		}
+	}
+	return true
+}''', '''	return true
+}'''))
+mut("C11", "record-map-aliases", ("types/record.go", '''	if r.m == nil {
+		return nil
+	}
+	return maps.Clone(r.m)''', '''	return r.m'''))
+mut("C11", "newrecord-no-clone", ("types/record.go", '''	if m != nil {
+		m = maps.Clone(m)
+	}''', ''''''))
+mut("C11", "record-equal-ignores-values-when-hash-equal", ("types/record.go", '''		if !ok || !av.Equal(bv) {
+			return false
+		}''', '''		if _, _ = av, bv; !ok {
+			return false
+		}'''))
+mut("C11", "long-equals-decimal", ("types/long.go", '''func (l Long) Equal(bi Value) bool {
+	b, ok := bi.(Long)
+	return ok && l == b
+}''', '''func (l Long) Equal(bi Value) bool {
+	if d, ok := bi.(Duration); ok {
+		return int64(l) == d.ToMilliseconds()
+	}
+	b, ok := bi.(Long)
+	return ok && l == b
+}'''))
+mut("C11", "newset-first-collision-wins", ("types/set.go", '''			} else if vv.Equal(existing) {
+				// found duplicate in slice
+				break
+			}
+			hash++''', '''			} else if vv.Equal(existing) || hash > vv.hash()+1 {
+				// found duplicate in slice
+				break
+			}
+			hash++'''))
+
 # ---- C20
 mut("C20", "unmarshal-merges", ("policy_set.go", """	*p = PolicySet{
 		policies: make(PolicyMap, len(jsonPolicySet.StaticPolicies)),
